@@ -87,6 +87,18 @@ class Server:
         sig = self.hmac(server_key, auth_message)
         if self.tamper == "signature":
             sig = bytes([sig[0] ^ 1]) + sig[1:]
+        # a server that cannot compute the signature can still send *something*: every shape that is not the
+        # exact ServerSignature must be refused by the client (RFC 5802 section 3, last step)
+        if self.tamper == "signature-last-bit":
+            sig = sig[:-1] + bytes([sig[-1] ^ 0x80])
+        if self.tamper == "signature-truncated":
+            sig = sig[:len(sig) // 2]
+        if self.tamper == "signature-one-byte":
+            sig = sig[:1]
+        if self.tamper == "signature-empty":
+            sig = b""
+        if self.tamper == "signature-extended":
+            sig = sig + b"\x00"
         if self.tamper == "no-signature":
             return b"e=other-error"
         return ("v=" + base64.b64encode(sig).decode()).encode("utf-8")
